@@ -32,9 +32,9 @@ m = {
     "setup_cmd": "./setup.sh",
     "hooks": {
         "guard": "WARNER_PYTHON_SPAKE2_VERIF",
-        "enable": "no source hooks are needed: the harness imports /repo/src in-process, injects entropy_f and observes return values, exceptions and attributes; the guard variable is set by the harness but read by nothing in /repo",
+        "enable": "the correspondence harness needs no hooks (it imports /repo/src in-process, injects entropy_f, observes return values and exceptions). One add-only hook exists for the trace slice of C01/C03/C08: with WARNER_PYTHON_SPAKE2_VERIF=1 and WARNER_PYTHON_SPAKE2_VERIF_TRACE=<file>, spake2/__init__.py imports spake2/_verif_hooks.py, which records every public-API call (with the entropy bytes drawn) while the library's own test suite runs; with the guard off nothing is imported",
         "baseline_off_cmd": "cd /repo && /venv/bin/python -m pytest -ra -q -p no:cacheprovider --timeout=900 --continue-on-collection-errors",
-        "source_commits": [],
+        "source_commits": ["10d291a2b9fa6c9e0399a97b28216b6374b72cbd"],
         "add_only": True,
     },
     "engines": [{
